@@ -34,7 +34,7 @@ def build(features=()):
     u.raw('pub mod shims2 { pub use crate::wrapping::Wrapping; }')
     rc = open(os.path.join(SHIMS, 'rand_core.rs')).read()
     u.raw(rc.replace('//@IMPLS@', rand_core_impls_text(u)))
-    u.raw(open(os.path.join(HERE, 'spec.rs')).read())
+    u.lemma_file(open(os.path.join(HERE, 'spec.rs')).read(), 'C08', prefix='xorshift.')
     u.raw('pub mod xorshift {\n' + PREAMBLE + 'use crate::wrapping::Wrapping as w;\nuse crate::rand_core::{impls, le};\n')
     u.struct(cr, 'XorShiftRng')
     u.raw('''
